@@ -765,7 +765,10 @@ class Backend(ABC):
         rule.set_conversion_result(finalized_queries)
         rule.set_conversion_states(states)
 
-        return finalized_queries
+        if rule._output:
+            return finalized_queries
+        else:  # rule is only referenced by correlation rules that don't generate referenced rules
+            return []
 
     @abstractmethod
     def convert_correlation_event_count_rule(
